@@ -61,9 +61,10 @@ class Outcome:
 class Part:
     def __init__(self, name, run, strategy=None, enumerate=None,
                  examples=None, floors=None, shrink_budget=None, max_rounds=6,
-                 per_shard_min=8, case_timeout=None, shrink_wall=240.0):
+                 per_shard_min=8, case_timeout=900, shrink_wall=240.0):
         self.name = name
-        # case_timeout: seconds after which one case is given up as inconclusive (never a violation);
+        # case_timeout: seconds after which one case is given up as inconclusive (never a violation; 0 = no limit; the
+        # default is far above the slowest case of any check on the unchanged tree, see slowest_case_s in the evidence);
         # shrink_wall: seconds after the first failure of a round after which shrinking stops (the verdict is settled by then)
         self.case_timeout = case_timeout
         self.shrink_wall = shrink_wall
